@@ -23,6 +23,7 @@ type Processor struct {
 	work    chan struct{}
 	threads int
 	wg      *sync.WaitGroup
+	closed  sync.Once
 }
 
 // Return a new Processor to operate the function f over the number of threads specified taking
@@ -56,7 +57,7 @@ func NewProcessor(queue chan Operator, buffer int, threads int) (p *Processor) {
 				p.work <- struct{}{}
 				verifStep("exit-token-returned")
 				if len(p.work) == p.threads {
-					close(p.out)
+					p.closed.Do(func() { close(p.out) })
 				}
 				p.wg.Done()
 			}()
